@@ -32,6 +32,7 @@ struct Out {
     evaluations: u64,
     nontrivial: u64,
     case: i64,
+    inconclusive: u64,
 }
 
 impl Out {
@@ -52,6 +53,41 @@ impl Out {
     fn witness(&mut self, class: &str, reproduced: bool, detail: String) {
         self.witnesses.push(json!({"class": class, "reproduced": reproduced, "detail": detail}));
     }
+}
+
+/// A set-up step (start a worker, bind/reserve an address, add a route, open a
+/// scripted connection) is retried a few times; if it still fails the case is
+/// *inconclusive*: counted, never a failure by itself (the run fails only when
+/// more than 2 % of the cases are inconclusive).
+fn setup<T>(out: &mut Out, what: &str, mut f: impl FnMut() -> RigResult<T>) -> Option<T> {
+    let mut last = String::new();
+    for attempt in 0..4 {
+        match f() {
+            Ok(v) => return Some(v),
+            Err(e) => last = format!("{e}"),
+        }
+        std::thread::sleep(Duration::from_millis(50 << attempt));
+    }
+    out.inconclusive += 1;
+    *out.dist.entry(format!("inconclusive:{what}")).or_insert(0) += 1;
+    eprintln!("tcprelay: inconclusive set-up step `{what}`: {last}");
+    None
+}
+
+/// connect a scripted client; a refused connection is the worker's doing (a
+/// failure), anything else (no local port, time-out under load) is set-up
+fn conn(out: &mut Out, addr: SocketAddr, ops: &[String]) -> Option<RawConn> {
+    for _ in 0..3 {
+        match RawConn::connect(addr) {
+            Ok(c) => return Some(c),
+            Err(e) if format!("{e}").to_lowercase().contains("refused") => {
+                out.fail("tcp-connect-fails", format!("{e}"), ops.to_vec());
+                return None;
+            }
+            Err(_) => std::thread::sleep(Duration::from_millis(50)),
+        }
+    }
+    setup(out, "connect", || RawConn::connect(addr))
 }
 
 fn payload(rng: &mut Rng, n: usize) -> Vec<u8> {
@@ -122,13 +158,10 @@ fn v2_header(src: SocketAddr, dst: SocketAddr) -> Vec<u8> {
 // ------------------------------------------------------------ plain relay --
 
 fn plain_relay(out: &mut Out, rng: &mut Rng, thorough: bool, buffer: usize) {
-    let mut w = match Worker::start(WorkerOpts { buffer_size: Some(buffer as u64), ..Default::default() }) {
-        Ok(w) => w,
-        Err(e) => return out.fail("rig-setup", format!("{e}"), vec![]),
-    };
-    let front = w.add_tcp_listener().expect("listener");
-    let be = MockBackend::listen().expect("backend");
-    w.add_tcp_route(front, "c0", be.addr, None).expect("route");
+    let Some(mut w) = setup(out, "worker", || Worker::start(WorkerOpts { buffer_size: Some(buffer as u64), ..Default::default() })) else { return };
+    let Some(front) = setup(out, "listener", || w.add_tcp_listener()) else { w.stop(); return };
+    let Some(be) = setup(out, "backend", MockBackend::listen) else { w.stop(); return };
+    if setup(out, "route", || w.add_tcp_route(front, "c0", be.addr, None)).is_none() { w.stop(); return }
     let sizes: Vec<(usize, usize)> = {
         let mut v = vec![(1, 1), (100, 0), (0, 100), (buffer - 1, buffer + 1), (buffer, buffer), (3 * buffer + 17, 2 * buffer + 5)];
         let extra = if thorough { 40 } else { 8 };
@@ -148,13 +181,7 @@ fn plain_relay(out: &mut Out, rng: &mut Rng, thorough: bool, buffer: usize) {
         let resp = payload(rng, down);
         let ops = vec![format!("mode=none buffer={buffer} up={up} down={down} style={style} pause={pause:?} backend_halfclose={}", i % 2 == 0)];
         out.case("plain:relay");
-        let mut c = match RawConn::connect(front) {
-            Ok(c) => c,
-            Err(e) => {
-                out.fail("tcp-connect-fails", format!("{e}"), ops.clone());
-                continue;
-            }
-        };
+        let Some(mut c) = conn(out, front, &ops) else { continue };
         // the backend connection is opened when the session starts; write up-stream in chunks
         let chunks = split(rng, &req, style);
         let refs: Vec<&[u8]> = chunks.iter().map(|c| c.as_slice()).collect();
@@ -203,15 +230,15 @@ fn plain_relay(out: &mut Out, rng: &mut Rng, thorough: bool, buffer: usize) {
     }
     // back-pressure: slow backend reader with a small receive buffer
     {
-        let be2 = MockBackend::listen_with(ConnOpts { rcvbuf: Some(4096), ..Default::default() }).expect("backend");
-        let front2 = w.add_tcp_listener().expect("listener");
-        w.add_tcp_route(front2, "c1", be2.addr, None).expect("route");
+        let Some(be2) = setup(out, "backend", || MockBackend::listen_with(ConnOpts { rcvbuf: Some(4096), ..Default::default() })) else { w.stop(); return };
+        let Some(front2) = setup(out, "listener", || w.add_tcp_listener()) else { w.stop(); return };
+        if setup(out, "route", || w.add_tcp_route(front2, "c1", be2.addr, None)).is_none() { w.stop(); return }
         let n = if thorough { 600_000 } else { 150_000 };
         let req = payload(rng, n);
         let ops = vec![format!("mode=none backpressure up={n} backend rcvbuf=4096 paced reads")];
         out.case("plain:backpressure");
         let h = be2.serve(vec![vec![Step::ReadPaced { chunk: 8192, pause: Duration::from_millis(1), total: n }, Step::Pause(Duration::from_millis(50)), Step::Close]], T, Duration::from_secs(20));
-        let mut c = RawConn::connect(front2).expect("connect");
+        let Some(mut c) = conn(out, front2, &ops) else { w.stop(); return };
         let wr = c.write_all(&req, Duration::from_secs(20));
         let recs = h.join().expect("serve");
         match recs.first() {
@@ -234,8 +261,8 @@ fn plain_relay(out: &mut Out, rng: &mut Rng, thorough: bool, buffer: usize) {
         out.case("plain:fin");
         let mut lost = None;
         for _ in 0..25 {
-            let mut c = RawConn::connect(front).expect("connect");
-            let mut b = be.accept(T).expect("accept");
+            let Some(mut c) = conn(out, front, &ops) else { break };
+            let Ok(mut b) = be.accept(T) else { out.fail("tcp-no-backend-connection", "no backend connection".into(), ops.clone()); break };
             std::thread::sleep(Duration::from_millis(10));
             let _ = c.write_all(b"hello world", T);
             c.shutdown_write();
@@ -254,8 +281,8 @@ fn plain_relay(out: &mut Out, rng: &mut Rng, thorough: bool, buffer: usize) {
         }
         let ops = vec!["mode=none client write(11) then shutdown(Write) after 300 ms".to_string()];
         out.case("plain:fin");
-        let mut c = RawConn::connect(front).expect("connect");
-        let mut b = be.accept(T).expect("accept");
+        let Some(mut c) = conn(out, front, &ops) else { w.stop(); return };
+        let Ok(mut b) = be.accept(T) else { out.fail("tcp-no-backend-connection", "no backend connection".into(), ops.clone()); w.stop(); return };
         let _ = c.write_all(b"hello world", T);
         std::thread::sleep(Duration::from_millis(300));
         c.shutdown_write();
@@ -270,8 +297,8 @@ fn plain_relay(out: &mut Out, rng: &mut Rng, thorough: bool, buffer: usize) {
     {
         let ops = vec!["mode=none client sends request, half-closes 100 ms later, backend answers after the FIN".to_string()];
         out.case("plain:halfclose-reply");
-        let mut c = RawConn::connect(front).expect("connect");
-        let mut b = be.accept(T).expect("accept");
+        let Some(mut c) = conn(out, front, &ops) else { w.stop(); return };
+        let Ok(mut b) = be.accept(T) else { out.fail("tcp-no-backend-connection", "no backend connection".into(), ops.clone()); w.stop(); return };
         let _ = c.write_all(b"request", T);
         let _ = b.read_until_len(7, T);
         std::thread::sleep(Duration::from_millis(100));
@@ -292,13 +319,10 @@ fn plain_relay(out: &mut Out, rng: &mut Rng, thorough: bool, buffer: usize) {
 // ------------------------------------------------------------------ send ---
 
 fn send_mode(out: &mut Out, rng: &mut Rng, thorough: bool) {
-    let mut w = match Worker::start(WorkerOpts::default()) {
-        Ok(w) => w,
-        Err(e) => return out.fail("rig-setup", format!("{e}"), vec![]),
-    };
-    let front = w.add_tcp_listener().expect("listener");
-    let be = MockBackend::listen().expect("backend");
-    w.add_tcp_route(front, "c0", be.addr, Some(ProxyProtocolConfig::SendHeader)).expect("route");
+    let Some(mut w) = setup(out, "worker", || Worker::start(WorkerOpts::default())) else { return };
+    let Some(front) = setup(out, "listener", || w.add_tcp_listener()) else { w.stop(); return };
+    let Some(be) = setup(out, "backend", MockBackend::listen) else { w.stop(); return };
+    if setup(out, "route", || w.add_tcp_route(front, "c0", be.addr, Some(ProxyProtocolConfig::SendHeader))).is_none() { w.stop(); return }
     let n = if thorough { 40 } else { 10 };
     for i in 0..n {
         let size = *rng.pick(&[0usize, 1, 27, 28, 29, 1000, 40000]);
@@ -306,7 +330,7 @@ fn send_mode(out: &mut Out, rng: &mut Rng, thorough: bool) {
         let immediate = i % 2 == 0;
         let ops = vec![format!("mode=send payload={size} immediate={immediate}")];
         out.case("send");
-        let mut c = RawConn::connect(front).expect("connect");
+        let Some(mut c) = conn(out, front, &ops) else { continue };
         if !immediate {
             std::thread::sleep(Duration::from_millis(15));
         }
@@ -347,21 +371,20 @@ fn send_mode(out: &mut Out, rng: &mut Rng, thorough: bool) {
 // ---------------------------------------------------------------- expect ---
 
 fn expect_http(out: &mut Out, _rng: &mut Rng, thorough: bool) {
-    let mut w = match Worker::start(WorkerOpts::default()) {
-        Ok(w) => w,
-        Err(e) => return out.fail("rig-setup", format!("{e}"), vec![]),
+    let Some(mut w) = setup(out, "worker", || Worker::start(WorkerOpts::default())) else { return };
+    let Some(front) = setup(out, "listener", || {
+        w.add_http_listener_with(
+            |b| {
+                b.with_expect_proxy(true);
+            },
+            |_| {},
+        )
+    }) else {
+        w.stop();
+        return;
     };
-    let front = match w.add_http_listener_with(
-        |b| {
-            b.with_expect_proxy(true);
-        },
-        |_| {},
-    ) {
-        Ok(a) => a,
-        Err(e) => return out.fail("rig-setup", format!("expect listener: {e}"), vec![]),
-    };
-    let be = MockBackend::listen().expect("backend");
-    w.add_http_route(front, "localhost", "/", "c0", be.addr, false).expect("route");
+    let Some(be) = setup(out, "backend", MockBackend::listen) else { w.stop(); return };
+    if setup(out, "route", || w.add_http_route(front, "localhost", "/", "c0", be.addr, false)).is_none() { w.stop(); return }
     let src: SocketAddr = "203.0.113.7:4321".parse().unwrap();
     let dst: SocketAddr = "198.51.100.9:80".parse().unwrap();
     let hdr = v2_header(src, dst);
@@ -370,7 +393,7 @@ fn expect_http(out: &mut Out, _rng: &mut Rng, thorough: bool) {
     let mut one = |out: &mut Out, w: &mut Worker, writes: Vec<Vec<u8>>, pause: Duration, label: String, known: Option<&str>| -> bool {
         let ops = vec![label.clone()];
         out.case("expect-http");
-        let mut c = RawConn::connect(front).expect("connect");
+        let Some(mut c) = conn(out, front, &ops) else { return true };
         let refs: Vec<&[u8]> = writes.iter().map(|c| c.as_slice()).collect();
         let _ = c.write_chunks(&refs, pause, T);
         let ok = match be.accept(Duration::from_millis(if known.is_some() { 400 } else { 1500 })) {
@@ -448,7 +471,7 @@ fn expect_http(out: &mut Out, _rng: &mut Rng, thorough: bool) {
     for (name, bytes) in [("bad signature", bad_sig), ("bad command", bad_cmd), ("oversized", oversize)] {
         let ops = vec![format!("mode=expect(http) {name} header + request")];
         out.case("expect-http-malformed");
-        let mut c = RawConn::connect(front).expect("connect");
+        let Some(mut c) = conn(out, front, &ops) else { continue };
         let _ = c.write_chunks(&[&bytes, &get], Duration::from_millis(5), T);
         let end = c.read_until_closed_or(Duration::from_millis(1500));
         if let Some(b) = be.try_accept() {
@@ -468,17 +491,14 @@ fn expect_http(out: &mut Out, _rng: &mut Rng, thorough: bool) {
 fn expect_tcp(out: &mut Out) {
     // F23: TCP cluster in expect-only mode: the first connection panics the worker
     silence_worker_panics();
-    let mut w = match Worker::start(WorkerOpts::default()) {
-        Ok(w) => w,
-        Err(e) => return out.fail("rig-setup", format!("{e}"), vec![]),
-    };
-    let front = w.add_tcp_listener().expect("listener");
-    let be = MockBackend::listen().expect("backend");
-    w.add_tcp_route(front, "c0", be.addr, Some(ProxyProtocolConfig::ExpectHeader)).expect("route");
+    let Some(mut w) = setup(out, "worker", || Worker::start(WorkerOpts::default())) else { return };
+    let Some(front) = setup(out, "listener", || w.add_tcp_listener()) else { w.stop(); return };
+    let Some(be) = setup(out, "backend", MockBackend::listen) else { w.stop(); return };
+    if setup(out, "route", || w.add_tcp_route(front, "c0", be.addr, Some(ProxyProtocolConfig::ExpectHeader))).is_none() { w.stop(); return }
     let ops = vec!["mode=expect(tcp cluster) v4 header then payload".to_string()];
     out.case("expect-tcp");
     let hdr = v2_header("203.0.113.7:4321".parse().unwrap(), "198.51.100.9:80".parse().unwrap());
-    let mut c = RawConn::connect(front).expect("connect");
+    let Some(mut c) = conn(out, front, &ops) else { w.stop(); return };
     let _ = c.write_chunks(&[&hdr, b"payload"], Duration::from_millis(20), T);
     let got = be.accept(Duration::from_millis(600)).map(|mut b| {
         let _ = b.read_until_len(7, Duration::from_millis(600));
@@ -500,17 +520,14 @@ fn expect_tcp(out: &mut Out) {
 
 fn relay_mode(out: &mut Out) {
     // F13: relay mode wedges the worker; run last, once (the thread keeps spinning until exit)
-    let mut w = match Worker::start(WorkerOpts::default()) {
-        Ok(w) => w,
-        Err(e) => return out.fail("rig-setup", format!("{e}"), vec![]),
-    };
-    let front = w.add_tcp_listener().expect("listener");
-    let be = MockBackend::listen().expect("backend");
-    w.add_tcp_route(front, "c0", be.addr, Some(ProxyProtocolConfig::RelayHeader)).expect("route");
+    let Some(mut w) = setup(out, "worker", || Worker::start(WorkerOpts::default())) else { return };
+    let Some(front) = setup(out, "listener", || w.add_tcp_listener()) else { w.stop(); return };
+    let Some(be) = setup(out, "backend", MockBackend::listen) else { w.stop(); return };
+    if setup(out, "route", || w.add_tcp_route(front, "c0", be.addr, Some(ProxyProtocolConfig::RelayHeader))).is_none() { w.stop(); return }
     let ops = vec!["mode=relay v4 header then payload".to_string()];
     out.case("relay");
     let hdr = v2_header("203.0.113.7:4321".parse().unwrap(), "198.51.100.9:80".parse().unwrap());
-    let mut c = RawConn::connect(front).expect("connect");
+    let Some(mut c) = conn(out, front, &ops) else { w.stop(); return };
     let _ = c.write_chunks(&[&hdr, b"payload"], Duration::from_millis(20), T);
     let got = be.accept(Duration::from_millis(600)).map(|mut b| {
         let _ = b.read_until_len(35, Duration::from_millis(600));
@@ -538,7 +555,7 @@ fn main() {
     let t0 = Instant::now();
     let thorough = args.thorough();
     let mut rng = Rng::new(args.seed ^ 0xC18);
-    let mut out = Out { failures: vec![], witnesses: vec![], dist: BTreeMap::new(), samples: vec![], evaluations: 0, nontrivial: 0, case: 0 };
+    let mut out = Out { failures: vec![], witnesses: vec![], dist: BTreeMap::new(), samples: vec![], evaluations: 0, nontrivial: 0, case: 0, inconclusive: 0 };
     if args.replay.is_some() {
         // black-box cases are not replayed from a file: the whole scenario set is deterministic in the seed
         eprintln!("tcprelay: replay = re-run of the scenario set with the given seed");
@@ -551,6 +568,10 @@ fn main() {
     expect_http(&mut out, &mut rng, thorough);
     expect_tcp(&mut out);
     relay_mode(&mut out);
+    if out.inconclusive * 50 > out.evaluations.max(1) {
+        let (n, ev) = (out.inconclusive, out.evaluations);
+        out.fail("harness-inconclusive", format!("{n} set-up step(s) stayed inconclusive after retries ({ev} cases): more than 2 %"), vec![]);
+    }
     let res = json!({
         "area": "tcprelay",
         "property": args.prop,
@@ -565,6 +586,7 @@ fn main() {
         "distribution": out.dist,
         "failures": out.failures,
         "known_witnesses": out.witnesses,
+        "inconclusive": out.inconclusive,
         "wall_s": t0.elapsed().as_secs_f64(),
     });
     if !args.out.is_empty() {
